@@ -128,11 +128,11 @@ type Env07 struct {
 	SrcMode      string `json:"src_mode"` // rel | abs | dotdot
 	History      int    `json:"history"`  // unrelated packagings earlier in the process
 	Neighbour    bool   `json:"neighbour"`
-	Child        bool   `json:"child"`              // cross-process through the CLI
+	Child        bool   `json:"child"`               // cross-process through the CLI
 	Umask        int    `json:"umask,omitempty"`     // process umask during the build (0 = leave)
 	EnvNoise     int    `json:"env_noise,omitempty"` // which set of unrelated ambient variables (HOME, USER, LANG, TMPDIR, ...) is installed
 	Hostname     string `json:"hostname,omitempty"`  // child only: host name inside a private UTS namespace
-	Relocate     bool   `json:"relocate,omitempty"` // build from a second copy of the tree at another path, created in reverse order
+	Relocate     bool   `json:"relocate,omitempty"`  // build from a second copy of the tree at another path, created in reverse order
 }
 
 type C07Plan struct {
@@ -188,6 +188,7 @@ type C12Plan struct {
 	RefAfter     bool     `json:"ref_after,omitempty"` // build the sequential references after the concurrent phase (cold process-wide state during it)
 	Instr        bool     `json:"instr,omitempty"`     // needs the ast-instrumented build
 	InstrSwitchP float64  `json:"instr_switch_p,omitempty"`
+	InstrWanted  bool     `json:"instr_wanted,omitempty"` // use the ast-inserted yields when the build has them
 	SchedSeed    uint64   `json:"sched_seed"`
 	Schedule     []Switch `json:"schedule,omitempty"` // replay: the recorded switch points
 	Replay       bool     `json:"replay,omitempty"`
